@@ -297,14 +297,17 @@ def work_oddargs(job):
         if b2 == b:
             continue
         n2 = BASES[b2][0]
-        d = ev.run(f'={name}2{n2}(A1)', {})
-        c = ev.run(f'=DEC2{n2}({name}2DEC(A1))', {})
-        acc.add('evaluations', 2)
-        acc.add('states')
-        if d[0] != 'ok' or d[:2] != c[:2]:
-            acc.violation(dict(kind='odd', fn=f'{name}2{n2}', verdict='differs-from-composition', x=None, blank=True,
-                               observed=jsonable(d[:2]), expected=jsonable(c[:2])),
-                          f'={name}2{n2}(<blank cell>) = {d[:2]!r} but DEC2{n2}({name}2DEC(<blank cell>)) = {c[:2]!r}')
+        for pl in (None, 4, 10, 0, 11, 'x', '#N/A'):
+            pa = '' if pl is None else ',C1'
+            d = ev.run(f'={name}2{n2}(A1{pa})', {'C1': pl})
+            c = ev.run(f'=DEC2{n2}({name}2DEC(A1){pa})', {'C1': pl})
+            acc.add('evaluations', 2)
+            acc.add('states')
+            if d[0] != 'ok' or d[:2] != c[:2]:
+                acc.violation(dict(kind='odd', fn=f'{name}2{n2}', verdict='differs-from-composition', x=None, blank=True, places=jsonable(pl),
+                                   observed=jsonable(d[:2]), expected=jsonable(c[:2])),
+                              f'={name}2{n2}(<blank cell>{pa and ", " + repr(pl)}) = {d[:2]!r} but DEC2{n2}({name}2DEC(<blank cell>){pa and ", " + repr(pl)}) '
+                              f'= {c[:2]!r}')
     d0, dz = ev.run(f'=DEC2{name}(A1)', {}), ev.run(f'=DEC2{name}(A1)', {'A1': 0})
     acc.add('evaluations', 2)
     if d0[:2] != dz[:2] and not (d0[0] == 'ok' and d0[1] in ERRS and False):
